@@ -5,6 +5,35 @@ import QeepProofs.Calculus
 import QeepProofs.Real
 /-!
 # C13 extension — BCE and CE: the local backward pass delivers the derivative of the loss formula (over `ℝ`)
+
+What is proved (all for every batch size / class count, all real values, every upstream gradient `c`, and **both** modes
+of the Broadcast backward rule — every Broadcast node in these graphs is between equal shapes, and SumAlong's rule is
+`reducerBroadcasted`, i.e. forward UnSqueeze + Broadcast, so finding D2 does not touch the loss gradients):
+
+* calculus (Mathlib): `bce_deriv`, `ce_deriv` (one summand), `bce_formula_deriv`, `ce_formula_deriv` (the whole formula,
+  partial derivative with respect to one prediction);
+* `clip_local_vjp`: the clip `ElMax(l·x⁰, ElMin(x, u·x⁰))` multiplies the gradient with `clipD l u x`; `clipD_cases`:
+  1 strictly inside the band, 0 strictly outside; `clipD_tie`: ½ within `θ = 1e-240` of a bound; `const_path_zero`: the
+  other paths (through the all-ones constants `x⁰`) deliver zeros;
+* `bce_local_vjp` / `ce_local_vjp` (exact, all predictions): composing the Model's rules along the back edges of the loss
+  graph — for BCE the two paths into `p̂` (through `log p̂` and `log(1−p̂)`), summed at `p̂` (fan-in), then the clip — the
+  prediction receives `bceGrad` resp. `ceGrad` = `c·(−1/n)·(t̂/p̂ − (1−t̂)/(1−p̂))·clipD ε (1−ε) p` resp.
+  `c·(−1/m)·(t̂/p̂)·clipD ε (1−ε) p`;
+* `bce_local_vjp_partial` / `ce_local_vjp_partial`: hence the derivative of the formula strictly inside the band, 0
+  strictly outside;
+* `bce_graph` / `ce_graph`: the hypotheses of the local theorems (node values, rules on the back edges, tracked nodes) are
+  exactly what `lossCompute` builds; `bce_gradient` / `ce_gradient`: both steps combined.
+
+**The naive statement is false for the code** (`clipD_naive_false`): "factor 1 whenever `ε < p < 1−ε`" fails for
+`p = 1 − ε − 1e-241`: the library's `Eq` (`|a−b| ≤ 1e-240`) makes ElMin's tie rule fire and the factor is ½. "Strictly
+inside / outside" therefore means: by more than `θ = 1e-240` (`ε + θ < p < 1 − ε − θ`, resp. `p < ε − θ` or `1 − ε + θ < p`).
+Over float64 the excluded slivers contain only the two bounds themselves (doubles are spaced `1.1e-16` near `1 − ε` and
+`2e-28` near `ε`): the exact ties `p = ε`, `p = 1 − ε`, where the factor is ½ (`clipD_tie`). The targets enter as `t̂ = clip(t, 0, 1)` (no gradient is
+asked for them); `tHat t = t` for `t ∈ [0, 1]` (`C12x.tHat_id`).
+
+Not proved here: that no *further* path from the loss reaches the prediction (by inspection of `lossCompute` the only
+other consumers of `p̂` and `p` are the `Pow(·, 0)` constants, covered by `const_path_zero`), and the lifting from path
+pullbacks to the stored `Gradient()` of a whole `BackPropagate` run (`C01.backprop_adjoint` gives the per-edge equations).
 -/
 set_option linter.unusedSimpArgs false
 set_option linter.unusedSectionVars false
@@ -458,7 +487,7 @@ theorem bce_local_vjp (bm : BMode) (H : Heap ℝ) (N : BceIds) (n : Nat) (hn : 0
 /-- **BCE gradient = derivative of the BCE formula where the prediction is strictly inside the clip band, 0 where it is
     strictly outside** (strictly: by more than the library's equality threshold `θ = 1e-240`; in between the tie rule
     of ElMax / ElMin gives half the value, `clipD_tie`). The targets enter as `t̂ = clip(t, 0, 1)`. -/
-theorem bce_local_vjp_cases (bm : BMode) (H : Heap ℝ) (N : BceIds) (n : Nat) (hn : 0 < n) (T P : List ℝ)
+theorem bce_local_vjp_partial (bm : BMode) (H : Heap ℝ) (N : BceIds) (n : Nat) (hn : 0 < n) (T P : List ℝ)
     (hT : T.length = n) (hP : P.length = n) (hv : BceNodeVals H N n T P) (c : ℝ) :
     ∃ A B G K,
       pullPath bm H N.pathA ⟨[], [c]⟩ = .ok A ∧ pullPath bm H N.pathB ⟨[], [c]⟩ = .ok B ∧
@@ -654,7 +683,7 @@ theorem ce_local_vjp (bm : BMode) (H : Heap ℝ) (N : CeIds) (m n : Nat) (hm : 0
 
 /-- **CE gradient = derivative of the CE formula where the prediction is strictly inside the clip band, 0 where it is
     strictly outside**: element `(i, j)` (row `i`, class `j`) receives `c · (−1/m) · t̂ᵢⱼ / pᵢⱼ`, resp. `0`. -/
-theorem ce_local_vjp_cases (bm : BMode) (H : Heap ℝ) (N : CeIds) (m n : Nat) (hm : 0 < m) (hn : 0 < n) (T P : List ℝ)
+theorem ce_local_vjp_partial (bm : BMode) (H : Heap ℝ) (N : CeIds) (m n : Nat) (hm : 0 < m) (hn : 0 < n) (T P : List ℝ)
     (hT : T.length = m * n) (hP : P.length = m * n) (hv : CeNodeVals H N m n T P) (c : ℝ) :
     ∃ G K, pullPath bm H N.pathA ⟨[], [c]⟩ = .ok G ∧ pullPath bm H N.pathClip G = .ok K ∧ K.dims = [m, n] ∧
       ∀ (i j : Nat) (hi : i < m) (hj : j < n) (tv pv : ℝ),
@@ -691,7 +720,7 @@ theorem hasDerivAt_sum_update {κ : Type} [Fintype κ] [DecidableEq κ] (F : κ 
   simpa using this
 
 /-- **the BCE formula** `−(1/n) Σₖ [tₖ·log pₖ + (1−tₖ)·log(1−pₖ)]`, differentiated with respect to `pᵢ ∈ (0,1)`:
-    `(−1/n)·(tᵢ/pᵢ − (1−tᵢ)/(1−pᵢ))` — the value `bce_local_vjp_cases` finds at position `i` (with `c = 1`, `t = t̂`). -/
+    `(−1/n)·(tᵢ/pᵢ − (1−tᵢ)/(1−pᵢ))` — the value `bce_local_vjp_partial` finds at position `i` (with `c = 1`, `t = t̂`). -/
 theorem bce_formula_deriv {n : ℕ} (t x : Fin n → ℝ) (i : Fin n) (h0 : 0 < x i) (h1 : x i < 1) :
     HasDerivAt (fun s => -(1 / (n : ℝ)) * ∑ k, (t k * Real.log (Function.update x i s k)
         + (1 - t k) * Real.log (1 - Function.update x i s k)))
@@ -705,7 +734,7 @@ theorem bce_formula_deriv {n : ℕ} (t x : Fin n → ℝ) (i : Fin n) (h0 : 0 < 
   ring
 
 /-- **the CE formula** `−(1/m) Σᵢ Σⱼ tᵢⱼ·log pᵢⱼ`, differentiated with respect to `pᵢⱼ ≠ 0`: `(−1/m)·tᵢⱼ/pᵢⱼ` — the value
-    `ce_local_vjp_cases` finds at element `(i, j)` (with `c = 1`, `t = t̂`). -/
+    `ce_local_vjp_partial` finds at element `(i, j)` (with `c = 1`, `t = t̂`). -/
 theorem ce_formula_deriv {m n : ℕ} (t x : Fin m × Fin n → ℝ) (ij : Fin m × Fin n) (h0 : x ij ≠ 0) :
     HasDerivAt (fun s => -(1 / (m : ℝ)) * ∑ i, ∑ j, t (i, j) * Real.log (Function.update x ij s (i, j)))
       (-1 / (m : ℝ) * (t ij / x ij)) (x ij) := by
@@ -1215,7 +1244,7 @@ theorem bce_gradient (bm : BMode) (H : Heap ℝ) (p t n : Nat) (hp : p < H.size)
   have lp : (H.val p).data.length = n := by rw [wp.1, dp]; simp [prod]
   have lt' : (H.val t).data.length = n := by rw [wt.1, dt]; simp [prod]
   obtain ⟨A, B, G, K, h1, h2, h3, h4, h5, h6, h7⟩ :=
-    bce_local_vjp_cases bm H' N n hn (H.val t).data (H.val p).data lt' lp hv c
+    bce_local_vjp_partial bm H' N n hn (H.val t).data (H.val p).data lt' lp hv c
   exact ⟨r, H', N.ph, N.pathA, N.pathB, N.pathClip, A, B, G, K, hrun, pa, pb, pc, h1, h2, h3, h4, h5, h6, h7⟩
 
 /-- **CE**: the same for `lossCompute .ce` on `m × n` inputs: element `(i, j)` of the prediction receives
@@ -1238,7 +1267,7 @@ theorem ce_gradient (bm : BMode) (H : Heap ℝ) (p t m n : Nat) (hp : p < H.size
   have hn : 0 < n := wp.2 n (by rw [dp]; simp)
   have lp : (H.val p).data.length = m * n := by rw [wp.1, dp]; simp [prod]
   have lt' : (H.val t).data.length = m * n := by rw [wt.1, dt]; simp [prod]
-  obtain ⟨G, K, h1, h2, h3, h4⟩ := ce_local_vjp_cases bm H' N m n hm hn (H.val t).data (H.val p).data lt' lp hv c
+  obtain ⟨G, K, h1, h2, h3, h4⟩ := ce_local_vjp_partial bm H' N m n hm hn (H.val t).data (H.val p).data lt' lp hv c
   refine ⟨r, H', N.ph, N.pathA, N.pathClip, G, K, hrun, pa, pc, h1, h2, h3, ?_⟩
   intro i j hi hj tv pv htv hpv
   have et : H.val t = ⟨[m, n], (H.val t).data⟩ := by rw [← dt]
